@@ -220,6 +220,14 @@ def r2(c):
             if isinstance(x, ast.Call) and isinstance(x.func, ast.Attribute) and x.func.attr == "startswith" and x.args and isinstance(x.args[0], ast.Constant) and x.args[0].value == "#":
                 sw = x
     if sw is None:
+        # the break is tested, but by equality with "#": a column-0 line that starts with '#' and carries text (`#-- next section`, `# sep`) no longer closes the open blocks
+        eqs = [x for t, pol in conds for x in ast.walk(t) if isinstance(x, ast.Compare) and len(x.ops) == 1 and isinstance(x.ops[0], ast.Eq)
+               and any(isinstance(y, ast.Constant) and y.value == "#" for y in [x.left] + x.comparators)]
+        if eqs:
+            c.check("C05.R2", False, repo.loc(m, eqs[0]), "_filtered_lines/section-break-any-#-line", f"the section break is recognised by `{norm(eqs[0])}`: only a bare `#`, not every line with "
+                    "`#` in column 0, ends the open blocks and resets the common offset — the rows after `#text` are attached to the block left open (or refused for bad indentation)",
+                    key_text="break-equality")
+            return
         raise AnchorError("_filtered_lines: startswith('#') test of the section break not found")
     recv = sw.func.value
     raw = isinstance(recv, ast.Name) and recv.id == lv and all(d.stmt is loop[0] for d in pv.rd.defs(recv))
